@@ -236,7 +236,7 @@ def conditions(tier):
 
 
 META = {
-    "bounds": {"quick": "(a) containers of <=3 elements, all layouts/masks; (b) see conditions", "thorough": "(a) <=4 elements; (b) more layouts"},
+    "bounds": {"quick": "(a) token-range kernel: containers of <=3 elements on one line and <=1 element multi-line, all delete/insert masks, 4 parent kinds; (b) 8 layouts x observed lists of 1-2 ints x 3 approved subsets; (c) import insertion: 2-file sessions in 6 order/kind combinations and 4 file heads (docstring, __future__, comments, import block)", "thorough": "(a) multi-line up to 3 elements (one condition per delete mask), one-line up to 4; (b) lists up to 3, 5 approved subsets"},
     "outside": "layouts not in the template list for (b); asttokens' own position computation and asttokens.util.replace are executed, not encoded",
     "assumptions": ["(a) elements are abstract atoms; gaps between kept elements contain exactly one comma (Python syntax)",
                     "(b) stub: repr of a symbolic int leaf is a name token"],
